@@ -549,13 +549,6 @@ var wk struct {
 
 func setupInterp() string {
 	ir := fast.New()
-	program := program
-	if os.Getenv("C33_DEV_NOP") != "" {
-		program = strings.Replace(program, "c33h.CheckP(tok, workP(tok, d))", "", 1)
-	}
-	if os.Getenv("C33_DEV_NOSAMPLE") != "" {
-		program = strings.Replace(program, "c33h.Sample(tok)", "", -1)
-	}
 	if p := vlib.Try(func() { ir.Eval(program) }); p != nil {
 		return fmt.Sprintf("the scenario program does not evaluate: %v", p)
 	}
@@ -854,14 +847,18 @@ func genSpec(t *rapid.T, thorough bool) stressSpec {
 	if s.Compiled+s.GoStmt == 0 {
 		s.GoStmt = 4
 	}
-	if s.Depth >= 13 && !thorough {
+	if s.Depth >= 13 {
 		// deep recursion (pool of 32 recycled frames exhausted and refilled) costs about a
 		// millisecond per function entry under the race detector: fewer goroutines
-		s.Compiled, s.GoStmt = s.Compiled%7, s.GoStmt%7
+		m := 7
+		if thorough {
+			m = 13
+		}
+		s.Compiled, s.GoStmt = s.Compiled%m, s.GoStmt%m
 		if s.Compiled+s.GoStmt == 0 {
 			s.Compiled, s.GoStmt = 2, 3
 		}
-		if s.Waves > 3 {
+		if s.Waves > 3 && !thorough {
 			s.Waves = 3
 		}
 		if s.Nest > 1 {
@@ -876,13 +873,13 @@ func TestStress(t *testing.T) {
 		return
 	}
 	var specs []stressSpec
-	rec.Check(t, rec.Scale(30, 80), func(t *rapid.T) {
+	rec.Check(t, rec.Scale(30, 60), func(t *rapid.T) {
 		specs = append(specs, genSpec(t, rec.Thorough()))
 	})
 	if t.Failed() {
 		return
 	}
-	const batch = 40
+	const batch = 30
 	for b := 0; b < len(specs); b += batch {
 		e := b + batch
 		if e > len(specs) {
